@@ -948,7 +948,7 @@ def main(ctx, replay):
     rng = random.Random(ctx.seed)
     info = C.prologue(ctx)
     if info["hbin"] is None:
-        raise RuntimeError("harness build failed:\n" + info.get("go_log", ""))
+        raise C.HarnessBuildFailed(info.get("go_log", ""))
     assumptions = [
         "JSON decoding of the request body, RFC3339 parsing and the management-label pattern are library verdicts fed to the model (generator-side twins)",
         "server wired by the real app.startServers from real config.Compile output; stores created by the harness with the compiled limits and a fixed clock",
